@@ -84,12 +84,16 @@ def layer_harnesses() -> List[H]:
             dq = [(19, 0, 0x45), (20, 0, 0x45), (24, 0, 0x45), (24, 0, 0x46), (24, 0, 0x43), (24, 0, 0x4F),
                   (38, 14, 0x45), (20, 0, -1),
                   # header behind an Ethernet header: options complete / cut inside the options
-                  (38, 14, 0x46), (37, 14, 0x46), (40, 14, 0x46)]
+                  (38, 14, 0x46), (37, 14, 0x46), (40, 14, 0x46),
+                  # buffer cut inside the 20 fixed bytes with the version/IHL byte SYMBOLIC (every IHL,
+                  # including the invalid ones below 5, against a truncated fixed header)
+                  (19, 0, -1), (15, 0, -1), (33, 14, -1)]
             dt = [(l, 0, 0x45) for l in _lens_full(20, 0)]
             dt += [(20 + 4 * (i - 5) + 2, 0, 0x40 + i) for i in range(5, 16)]          # every IHL, options fit
             dt += [(20 + 4 * (i - 5) - 1, 0, 0x40 + i) for i in range(6, 16)]          # options cut by one byte
             dt += [(24, 0, 0x40 + i) for i in range(0, 5)] + [(24, 0, 0x65), (64, 0, 0x4F), (78, 14, 0x4F),
                                                               (37, 18, 0x45), (38, 18, 0x45), (42, 18, 0x46)]
+            dt += [(l, 0, -1) for l in range(1, 20)] + [(l, 14, -1) for l in range(15, 34)]    # truncated fixed header, any IHL
             for off in (14, 18):                                                       # same at non-zero offsets
                 dt += [(off + 4 * i, off, 0x40 + i) for i in (6, 7, 10, 15)]           # options just fit
                 dt += [(off + 4 * i - 1, off, 0x40 + i) for i in (6, 7, 10, 15)]       # cut by one byte
